@@ -7,6 +7,9 @@ CONSTANTS
   SharedCounter = TRUE
   PreferCtxErr = TRUE
   FlushOnCtxErr = TRUE
+  WaitErrChecksDone = TRUE
+  Outcomes = {"zero", "nonzero", "signal", "waitfail"}
+  PrintKinds = {"pr_direct", "pr_buffered", "pr_file", "pr_cmd"}
 INVARIANTS TypeOK Prompt ExactBound EndsRight NoSpuriousCtxErr RightIdentity Delivered DeliveredBefore Invisible
 PROPERTIES Stops
 CHECK_DEADLOCK FALSE
